@@ -6,3 +6,11 @@ _UL = {"C03": "quick", "C01": "quick"}
 GROUPS = [_d("sdod_dl_exp", "COSdoDownloadExpedited", 0, _DL), _d("sdod_dl_seg_init", "COSdoInitDownloadSegmented", 1, _DL), _d("sdod_dl_seg", "COSdoDownloadSegmented", 2, _DL),
           _d("sdod_dl_blk_init", "COSdoInitDownloadBlock", 3, _DL), _d("sdod_dl_blk", "COSdoDownloadBlock", 4, _DL), _d("sdod_dl_blk_end", "COSdoEndDownloadBlock", 5, _DL),
           _d("sdod_ul_exp", "COSdoUploadExpedited", 6, _UL), _d("sdod_ul_seg_init", "COSdoInitUploadSegmented", 7, _UL), _d("sdod_ul_seg", "COSdoUploadSegmented", 8, _UL)]
+
+def _u(name, fn, op, reach, n, tier):
+    return dict(name=name, fn=fn, form="explicit", harness="sdo_ulb_data.c", tus=["service/cia301/co_ssdo.c"], defs=["VW_OP=%d" % op, "VW_BLK_MAX=%d" % n], nondet_static=True,
+                loop_tus={}, unwind_all=9, unwind={"COSdoUploadBlock.0": 7 * n + 1, "COSdoUploadBlock.6": n + 1}, reach=["post"] + reach, props={"C03": tier, "C01": tier}, timeout=1800, cost=40 * n, object_bits=10, mem_gb=20,
+                bounded="block size <= %d segments (object size, position, acknowledge position, history unbounded)" % n)
+GROUPS += [_u("sdod_ulb_start2", "COSdoUploadBlock", 0, [], 2, "quick"), _u("sdod_ulb_ack2", "COSdoAckUploadBlock", 1, ["a", "b", "c"], 2, "quick"),
+           _u("sdod_ulb_start3", "COSdoUploadBlock", 0, [], 3, "thorough"), _u("sdod_ulb_ack3", "COSdoAckUploadBlock", 1, ["a", "b", "c"], 3, "thorough"),
+           _u("sdod_ulb_start6", "COSdoUploadBlock", 0, [], 6, "thorough"), _u("sdod_ulb_ack6", "COSdoAckUploadBlock", 1, ["a", "b", "c"], 6, "thorough")]
